@@ -527,7 +527,9 @@ UsesCalendar(s) == \E i \in DOMAIN s.pre : s.pre[i].t = "d" /\ TokName(s.pre[i])
 HasElapsed(s) == \E i \in DOMAIN s.pre : s.pre[i].t = "el"
 DateInContract(s, m) ==
   /\ Len(m.int) <= 7 /\ Len(m.frac) <= 10 /\ Val(m.int) < MaxSerial
-  /\ (UsesCalendar(s) \/ \E i \in DOMAIN s.pre : IsTok(s.pre[i]) /\ TokName(s.pre[i]) \in {"m", "mm"}) => Val(m.int) >= MinSerial
+  /\ (UsesCalendar(s) \/ \E i \in DOMAIN s.pre : /\ IsTok(s.pre[i]) /\ TokName(s.pre[i]) \in {"m", "mm"}
+                                                  /\ (s.pre[i].t = "el" \/ ~IsMinutes(s.pre, i) \/ ~ImplMinutes(s.pre, i)))
+        => Val(m.int) >= MinSerial              \* an m that is, or is taken for, a month needs a calendar day
   /\ HasElapsed(s) => Val(m.int) < 20000
 Hour12(h) == IF h % 12 = 0 THEN 12 ELSE h % 12
 TokCells(items, i, m, D) ==
